@@ -99,13 +99,13 @@ class MonteCarloSettings:
         use this method to manually set these values.
 
         """
-        self.__settings[lit.MONTE_CARLO_STRATEGY] = lit.MC_CUSTOM
         if not isinstance(value, Real):
             raise TypeError("Cannot assign a {} to the value!".format(type(value).__name__))
         if not isinstance(error, Real):
             raise TypeError("Cannot assign a {} to the error!".format(type(error).__name__))
         if error < 0:
             raise ValueError("The error must be a positive real number!")
+        self.__settings[lit.MONTE_CARLO_STRATEGY] = lit.MC_CUSTOM
         self.__evaluator.values[self.strategy] = dt.ValueWithError(value, error)
 
     @property
